@@ -22,7 +22,7 @@ RULE = ("one evaluation = one faulted run (state, solve index k, failure kind) c
 ASSUMPTIONS = [
     "fits made outside fit_model (outlier detector, bootstrap strata distributions) are not fault targets: the statement covers 'the median or an interval bound'",
     "equality with the reference run (fit k done directly with normalize_weights=False) is bit-for-bit; against the fault-free run only schema/keys and, for lambda = 0, equality of the weighted pinball objective (1e-9 relative) are demanded, because the LP can have several optimal vertices",
-    "the inaccuracy warning is emitted through the installed cvxpy's own warn helper (recent cvxpy attributes it to the calling solver module) and, as a second kind, attributed to cvxpy.problems.problem (older cvxpy); the library's own filters must turn both into an exception and a retry",
+    "the inaccuracy warning is attributed to elexsolver's solver module (what the installed cvxpy does in a deployment: first frame outside cvxpy) and, as a second kind, to cvxpy.problems.problem (older cvxpy); the library's own filters must turn both into an exception and a retry",
 ]
 REAL = C.REAL
 STUBBED = C.STUBBED + ["solver failure: QuantileRegressionSolver subclass that fails the k-th fit once (real solver otherwise)"]
